@@ -27,13 +27,17 @@ func propConfigs() map[string]*PropConfig {
 	add(&PropConfig{ID: "C01", Prefix: "VH_C01_", StrBytes: 8, Sets: []HarnessSet{hfiles("fast", fastLib, "fast/c01_binary_gen.go", "fast/c01_more_gen.go")},
 		Thorough: func(n string) bool { return strings.Contains(n, "_T_") },
 		Explain: "pattern B: the real Comp.BinaryExpr1/UnaryExpr/Symbol.expr compile functions are executed on symbolic operands per (operator, kind, constness shape); the returned closure is run and compared with the native Go operator"})
-	add(&PropConfig{ID: "C02", Prefix: "VH_C02_", StrBytes: 8, Sets: []HarnessSet{hfiles("fast", fastLib, "fast/c01_binary_gen.go", "fast/c02_var_gen.go", "fast/c02_place_gen.go")},
+	add(&PropConfig{ID: "C02", Prefix: "VH_C02_", StrBytes: 8, Sets: []HarnessSet{hfiles("fast", fastLib, "fast/c01_binary_gen.go", "fast/c02_var_gen.go", "fast/c02_place_gen.go", "fast/c02_setvalue_gen.go", "fast/c02_multi.go")},
 		Explain: "pattern B: the real Comp.setVar/setPlace compile functions are executed per (operator, kind, storage class, constness, closure depth); the returned statement closure is run on a chain of symbolic frames and the post-state compared with the native Go operator, including frame condition (all other slots unchanged), IP protocol and single evaluation"})
 	add(&PropConfig{ID: "C37", Prefix: "VH_C37_", Sets: []HarnessSet{hfiles("fast", fastLib, "fast/c37.go")},
 		Thorough: func(n string) bool { return strings.Contains(n, "_T_") },
 		Redirect: map[string]string{"github.com/cosmos72/gomacro/fast.sortCmdList": "vhModelSortCmdList"},
 		StrBytes: 16,
 		Explain:  "patterns A/C: the real binarySearch, prefixSearch, removeCmd, Cmds.Add/Del/Lookup run on symbolic command names (SMT strings) and are compared with a linear-scan reference lookup"})
+	add(&PropConfig{ID: "C14", Prefix: "VH_C14_", Sets: []HarnessSet{hfiles("fast", fastLib, "fast/c14.go")},
+		Explain: "pattern C: the real BindClass.MakeDescriptor/Index/Class, Comp.NewBind, CompBinds.NewBind and Interp.prepareEnv are executed from an arbitrary state satisfying the slot invariant; post-conditions: slot allocation, frozen capacity honoured, existing slots preserved, no reallocation after an address escaped"})
+	add(&PropConfig{ID: "C19", Prefix: "VH_C19_", Sets: []HarnessSet{hfiles("fast", fastLib, "fast/c19.go"), hfiles("fast/debug", "debug/c19_cmd.go")},
+		Explain: "patterns A/C: the real singleStep, Interp.debug, Run.applyDebugOp (package fast) and Debugger.cmdStep/cmdNext/cmdFinish/cmdContinue, Cmds.Lookup (package fast/debug) are executed with symbolic call depths; the debugger is a counting stub; assertions state the stop rule of each command"})
 	xrp := "(*github.com/cosmos72/gomacro/xreflect.xtype)."
 	add(&PropConfig{ID: "C34", Prefix: "VH_C34_", Sets: []HarnessSet{hfiles("xreflect", "xreflect/lib_xreflect.go", "xreflect/c34_gen.go")},
 		Redirect: map[string]string{xrp + "NumMethod": "vhModelNumMethod", xrp + "Method": "vhModelMethod", xrp + "GetMethods": "vhModelGetMethods"},
